@@ -1,24 +1,28 @@
 """C12 bounded tier — cached results are transparent: answers do not depend on query history.
 
-A *symbol* is (query, settings context).  For one operator instance the harness
-  1. runs every symbol on a fresh copy (deepcopy of the never-queried operator)            -> reference results,
-  2. explores query histories as a trie of operator states (state = deepcopy of the parent state + one query):
-       quick    : all sequences of length <= 2 over the full alphabet F, all sequences p1 p2 f with p1, p2 in the
-                  cache-writing sub-alphabet P and f in F (length 3);
-       thorough : the same + random sequences of length <= 6 over F executed from scratch (no deepcopy),
-     and compares the LAST result of every sequence with the reference of the same symbol:
-       error against the independent dense oracle  <=  max(tolerance of the method, 4 x error of the fresh copy),
-       deterministic queries with an explicit method additionally entry-wise equal to the fresh result (a cached
+A *symbol* is (query, settings context); 37 symbols (see _alphabet).  For one operator instance the harness
+  1. runs every symbol on a fresh copy (structural copy of the never-queried operator)        -> reference results;
+     symbols whose fresh result is itself outside the method tolerance (or raises) are dropped for this instance,
+  2. explores query histories as a trie of operator states (state = structural copy of the parent state + one query;
+     operators / caches are copied, tensors shared):
+       quick    : all histories of length <= 2 over the usable alphabet F (37 x 37), and on the first instance of a case
+                  the length-3 histories p1 p2 f with p1, p2 in 12 factorization-writing symbols and f in 16
+                  cache-reading symbols;
+       thorough : more instances, the length-3 family 20 x 20 x 27 on the first two instances, and 60 random histories
+                  of length 4-6 per instance executed from scratch on a newly built operator,
+     and compares the LAST result of every history with the reference of the same symbol:
+       error against the independent dense oracle  <=  max(tolerance of the methods involved in the history, 4 x error of
+       the fresh copy);  deterministic explicit-method queries additionally entry-wise equal to the fresh result (a cached
        factor of another orientation / method served under the wrong key is caught here even if it factorizes D),
   3. after every prefix state: densifies / multiplies out every entry of ``_memoize_cache`` of the operator and of its
      sub-operators (and the ad-hoc caches of AddedDiag / Interpolated) and checks it against the matrix of the object it
-     hangs on,
-  4. after every prefix state of length <= 1 (for add_low_rank / cat_rows also length 2 over the root-writing symbols, and
-     under changed settings): builds the derived operators add_jitter, add_diagonal, add_low_rank, cat_rows, op[index],
-     mT, op * c, expand; validates every cache entry they carry against the dense matrix of the DERIVED operator and runs
-     a battery of queries on them, compared with a cache-free copy (derived.clone()) and the dense oracle.
-A failing sequence found through deepcopy states is re-executed from scratch on a newly built operator before it is
-recorded (a sequence that does not reproduce is recorded under selfcheck/…)."""
+     hangs on (a TriangularLinearOperator in a cache must hold a triangular matrix),
+  4. after prefix states of length <= 1 (for add_low_rank / cat_rows also length 2 over root-writer x inverse-root-writer
+     pairs, and derived under changed settings): builds the derived operators add_jitter, add_diagonal, add_low_rank,
+     cat_rows, op[..., :m, :m], op[0], mT, op * c, expand; validates every cache entry they carry against the dense matrix
+     of the DERIVED operator and runs a battery of queries on them, compared with a cache-free copy (derived.clone()).
+A failing history found on copied states is re-executed from scratch on a newly built operator before it is recorded
+(a history that does not reproduce is recorded under selfcheck/...)."""
 from __future__ import annotations
 
 from engine.common import Unit
@@ -49,7 +53,7 @@ def _setup():
 
 def _fork(x, memo=None):
     """structural copy of an operator state: operators, their attribute dicts, caches (dict / list / tuple containers) are
-    copied, tensors and other leaves are shared.  (copy.deepcopy does the same but also copies every tensor: ~5x slower.)"""
+    copied, tensors and other leaves are shared.  (copy.deepcopy would also copy every tensor: ~5x slower.)"""
     from linear_operator.operators import LinearOperator
 
     if memo is None:
@@ -662,7 +666,7 @@ def _check_derived(torch, rec, cname, label, state, O, seed, floors, which=None,
 
 def _instances_for(zoo, torch, cname, tier):
     quick = [(torch.float64, (), 4), (torch.float32, (2,), 3)]
-    thorough = quick + [(torch.float64, (2, 3), 2), (torch.float32, (), 6), (torch.float64, (1,), 5), (torch.float64, (), 2)]
+    thorough = quick + [(torch.float64, (2, 3), 2), (torch.float32, (1,), 5)]
     for dt, b, n in (quick if tier == "quick" else thorough):
         for label, c, op, dense in zoo.instances(tier, names=[cname], dtypes=[dt], batches=[b], sizes=[n]):
             yield label, c, op, dense, (dt, b, n)
@@ -682,7 +686,7 @@ def rtc_histories(case_names, tier):
     torch, zoo, rec, seed = _setup()
     A = _alphabet()
     for cname in case_names:
-        first_instance = True
+        n_inst = 0
         for label, c, op0, dense, key in _instances_for(zoo, torch, cname, tier):
             if op0 is None:
                 rec.check(f"construct/{cname}", label, False, f"constructor raised {dense!r}")
@@ -718,7 +722,7 @@ def rtc_histories(case_names, tier):
                 if not ok:
                     ok2, det2 = confirm(seq)
                     if ok2:
-                        rec.check(f"selfcheck/deepcopy_state_vs_scratch/{cname}", lab, False, f"fails on a deepcopy state ({det}) but not from scratch")
+                        rec.check(f"selfcheck/copied_state_vs_scratch/{cname}", lab, False, f"fails on a copied state ({det}) but not from scratch")
                         return
                     det = det2
                 rec.check(f"history/{s['name'].split('@')[0].split('(')[0]}/{cname}", lab, ok, det)
@@ -736,7 +740,7 @@ def rtc_histories(case_names, tier):
                     _check_derived(torch, rec, cname, label, state, O, seed, floors, ("add_low_rank", "cat_rows"), hist, derivable, mini=derive == "roots2", refcache=refcache)
 
             # ---- 2./3./4. trie
-            deep = first_instance or tier != "quick"  # length-3 histories / length-2 derivations: first instance of a case only (quick)
+            deep = n_inst < (1 if tier == "quick" else 2)  # length-3 histories / length-2 derivations: first instance of a case (thorough: first two)
             node_checks(op0, [], "all")
             for f in F:
                 leaf(op0, [f])
@@ -745,7 +749,10 @@ def rtc_histories(case_names, tier):
                 k1, _ = _run(p1, s1, O)
                 if k1 != "ok":
                     continue
-                node_checks(s1, [p1], "all" if (p1["writer"] and (tier != "quick" or p1["name"] in DERIVE_ALL_QUICK)) else ("roots" if p1["rootw"] else None))
+                derive_all = p1["writer"] and (tier != "quick" or (deep and p1["name"] in DERIVE_ALL_QUICK))
+                node_checks(s1, [p1], "all" if derive_all else ("roots" if p1["rootw"] else None))
+                if not (deep or p1["writer"]):
+                    continue  # (further instances of a case, quick tier: length-2 histories with cache-writing first queries only)
                 for f in F:
                     leaf(s1, [p1, f])
                 if not (deep and p1 in P3):
@@ -759,11 +766,11 @@ def rtc_histories(case_names, tier):
                     node_checks(s2, [p1, p2], "roots2" if pair else None)
                     for f in R3:
                         leaf(s2, [p1, p2, f])
-            first_instance = False
+            n_inst += 1
             # ---- thorough: random longer histories executed from scratch
             if tier != "quick":
                 rng = random.Random(seed * 1000 + len(label))
-                for t in range(120):
+                for t in range(60):
                     L = rng.randint(4, 6)
                     seq = [rng.choice(F) for _ in range(L)]
                     op = _rebuild(zoo, cname, key)
@@ -790,21 +797,21 @@ def rtc_units(tier):
 
 
 RTC_META = {
-    "explanation": "query histories on one operator object are explored as a trie of deep-copied operator states; the last result of every "
+    "explanation": "query histories on one operator object are explored as a trie of copied operator states; the last result of every "
                    "history is compared with the same query on a fresh copy (error against the dense oracle within max(method tolerance, 4 x fresh error); "
                    "deterministic explicit-method queries entry-wise), every _memoize_cache entry (operator, sub-operators, derived operators) is multiplied "
                    "out against the matrix of the object it hangs on, and derived operators are queried against cache-free copies of themselves",
     "assumptions": [
-        "a deepcopy of an operator (with its caches) behaves like the operator itself; every failure found on a deep-copied state is re-executed "
-        "from scratch on a newly built operator before it is recorded",
+        "a structural copy of an operator state (operators, attribute dicts, caches copied; tensors shared) behaves like the operator itself; "
+        "every failure found on a copied state is re-executed from scratch on a newly built operator before it is recorded",
         "torch.manual_seed is reset before every query, so that iterative methods see the same start / probe vectors in the history and on the fresh copy",
         "queries whose result on a *fresh* copy is itself outside the method tolerance (or raises) are not used as references (C04-C06 own those)",
     ],
-    "families": "28 PSD zoo cases x instances {(f64, (), n=4), (f32, (2,), n=3)} (thorough: + (f64,(2,3),2), (f32,(),6), (f64,(1,),5), (f64,(),2)); alphabet of 37 symbols = "
+    "families": "28 PSD zoo cases x instances {(f64, (), n=4), (f32, (2,), n=3)} (thorough: + (f64,(2,3),2), (f32,(1,),5)); alphabet of 37 symbols = "
                 "{to_dense, cholesky(upper F/T), root_decomposition() / (method=None|cholesky|symeig|lanczos|pivoted_cholesky), root_inv_decomposition() / "
                 "(method=None|cholesky|symeig|lanczos), diagonalization() / (symeig|lanczos), svd, eigh, eigvalsh, solve, logdet, inv_quad_logdet, diagonal, "
                 "preconditioner, zero_mean_mvn_samples} x settings {default, max_cholesky_size=1 + min_preconditioning_size=1, the same + fast_computations off}; "
-                "all histories of length <= 2, length 3 with cache-writing prefixes (25 x 25 x 37); derived operators after every history of length <= 1 "
-                "(add_low_rank / cat_rows: also length 2 over 13 root-writing symbols, derived under default and changed settings); thorough: + 120 random "
+                "all histories of length <= 2 (37 x 37; on further instances of a case in the quick tier 25 cache-writing first queries x 37), length 3 = 12 x 12 factorization-writing prefixes x 16 cache-reading final queries on the first instance (thorough: 20 x 20 x 27 on the first two instances); derived operators after every history of length <= 1 "
+                "(add_low_rank / cat_rows: also length 2 over 13 root-writing symbols, derived under default and changed settings); thorough: + 60 random "
                 "from-scratch histories of length 4-6 per instance",
 }
